@@ -579,7 +579,30 @@ def r03_10(chk):
     chk.floor("R03.10", 2, "Aligned and IndelMap")
 
 
+def r03_11(chk):
+    chk.rule("R03.11", "the index-type dispatch of Alignment.__getitem__ is exhaustive: the object it returns is assigned on every path that reaches the return (each isinstance branch binds it, anything else raises) -- a type that matches no branch (numpy.int64, as numpy.where returns) must not fall through to the use of an unbound local")
+    from .. import cfg as C
+    from .. import defuse as DU
+
+    m = chk.repo.module(ALN)
+    fn = m.func("Alignment.__getitem__")
+    g = C.build(fn)
+    rets = [n for n in g.nodes if n.kind == "return" and isinstance(n.ast.value, ast.Name)]
+    if not rets:
+        raise AnalysisError("Alignment.__getitem__: no `return <name>` found")
+    for r in rets:
+        nm = r.ast.value.id
+        defs = [n for n in g.nodes if nm in DU._defs_of_node(n)]
+        okd = bool(defs) and g.dominated_by(r, defs)[0]
+        uses = [n for n in g.nodes if n.ast is not None and n.kind != "def" and any(isinstance(x, ast.Name) and x.id == nm and isinstance(x.ctx, ast.Load) for e in C.own_exprs(n) for x in C._walk_shallow(e))]
+        all_ok = okd and all(g.dominated_by(u, defs)[0] or u in defs for u in uses)
+        _, path = g.dominated_by(r, defs) if defs else (False, None)
+        chk.decide(all_ok, "R03.11", key(m, "Alignment.__getitem__", f"`{nm}` bound on every path"), m.loc(r.ast), "every path to the return binds it or raises", f"`{nm}` can be unbound where it is used" + (f" (path: {g.show_path(path)})" if path else "") + ": an index of a type no isinstance branch accepts raises UnboundLocalError instead of selecting the column / raising TypeError")
+    chk.floor("R03.11", 1, "Alignment.__getitem__")
+
+
 def run(chk):
+    r03_11(chk)
     r03_10(chk)
     r03_9(chk)
     r03_7(chk)
